@@ -307,9 +307,15 @@ def diverges(e):
 class FileIndex:
     """functions, methods and struct fields of one parsed file"""
 
-    def __init__(self, parser, items):
+    def __init__(self, parser, items, extra=()):
+        """extra: (parser, items) of other files of the crate whose FREE functions may be called from this one"""
         self.parser = parser
         self.free, self.methods, self.fields, self.consts = {}, {}, {}, {}
+        self.parser_of = {}
+        for p2, its in extra:
+            for i in its:
+                if i[0] == "fn":
+                    self.free.setdefault(i[3], []).append(i); self.parser_of[id(i)] = p2
         for i in items:
             if i[0] == "fn": self.free.setdefault(i[3], []).append(i)
             elif i[0] == "struct" and i[4]:
@@ -386,7 +392,7 @@ class Inliner:
         if len(params) != len(args): raise Lost(ln, "call of `%s` with %d arguments" % (name, len(args)))
         self.n += 1
         sfx = "__%s%d" % (name, self.n)
-        body, pm = uniquify(self.ix.parser.fn_body(f), [p for p, _ in params], sfx)
+        body, pm = uniquify(self.ix.parser_of.get(id(f), self.ix.parser).fn_body(f), [p for p, _ in params], sfx)
         m, lets = {}, []
         if selfe is not None:
             s0 = strip(selfe)
@@ -730,9 +736,9 @@ class Simplifier:
         return None
 
 
-def prepare(parser, items, fnitem, ty, keep, adjacent_methods=()):
+def prepare(parser, items, fnitem, ty, keep, adjacent_methods=(), extra=()):
     """the body of fnitem with the file's private helpers inlined and the idioms normalised; -> (block, inlined names)"""
-    ix = FileIndex(parser, items)
+    ix = FileIndex(parser, items, extra)
     inl = Inliner(ix, keep, adjacent_methods)
     inl.stack.append((ty, fnitem[3]))
     body = inl.block(parser.fn_body(fnitem), ty, True, True, fnitem[5] is None)
